@@ -21,10 +21,11 @@ META = dict(
     bounds={"quick": {"records": [2, 3], "contests": 2, "raire": "1 header + 3 ballot rows, 2 contests, 2 ids, rankings over 2 candidates"},
             "thorough": {"records": [2, 3, 4], "contests": 2, "raire": "2 headers + 4 rows, 3 ids"}},
     outside=["more records than the bound", "CSV quoting (rows are supplied split, as from_raire documents)"],
-    assumptions=["flags are booleans", "tally pools are None or hashable labels"],
+    assumptions=["flags are booleans", "tally pools are None or hashable labels (grid: None, 'P', 'Q'; for K <= 3 also the falsy labels 0 and '')"],
     trusted=["symx builtins model"],
 )
 POOLS = [None, "P", "Q"]
+FALSY = [0, ""]
 
 
 def partitions(k):
@@ -46,6 +47,10 @@ def cells(tier):
                 pools_grid = [tuple([None] * K)]
             else:
                 pools_grid = list(itertools.product(POOLS, repeat=K)) if K <= 3 else list(itertools.product([None, "P"], repeat=K)) + [("P", "Q", None, "Q")]
+            if not (len(set(ids)) == K and K > 2) and K <= 3:
+                # labels that are not None but falsy (batch index 0, empty string): "no pool" must be tested with `is None`
+                for f in FALSY:
+                    pools_grid += [t for t in itertools.product([None, f, "P"], repeat=K) if f in t]
             for pools in pools_grid:
                 out.append(dict(kind="merge", K=K, ids=list(ids), pools=list(pools)))
     # two records of different cards holding the same votes dict object (one ballot-style dict): merging one card must not change the other
